@@ -353,6 +353,7 @@ int_t NewNsuper(const int_t pnum, pxgstrf_shared_t *pxgstrf_shared, int_t *data)
 #endif    
     {
       i = ++(*data);
+      SLU_MT_VERIF_EVENT(SLU_EV_NEW_SUPER, pnum, i, 0, 0, data);
     }
 #if ( MACH==SUN )
     mutex_unlock(lock);
